@@ -160,6 +160,10 @@ func (ssc *defaultStatefulSetControl) ListRevisions(set *apps.StatefulSet) ([]*k
 			continue
 		}
 		seen[local.Name] = true
+		// revisions controlled by another owner are not part of this set's history
+		if ref := metav1.GetControllerOfNoCopy(&local); ref != nil && ref.UID != set.GetUID() {
+			continue
+		}
 		res = append(res, &local)
 	}
 	return res, nil
